@@ -108,9 +108,13 @@ FindSlot(bal, bn) == LET S == {i \in DOMAIN bal : IsActive(bal[i]) /\ bal[i].ban
 FirstEmpty(bal) == LET S == {i \in DOMAIN bal : ~IsActive(bal[i])} IN IF S = {} THEN 0 ELSE CHOOSE i \in S : \A j \in S : i <= j
 NewSlot(bn, key, tag, now) == [act |-> 1, bank |-> bn, key |-> key, tag |-> tag, a |-> BZero, l |-> BZero, emis |-> BZero, lu |-> now]
 \* find_or_create -> <<bal', index>> or error
+\* (a new position in a venue-backed bank - asset tags 3, 4, 5 - is refused once eight such positions are open)
+IsIntegrationTag(t) == t \in {3, 4, 5}
 FindOrCreate(bal, bn, key, tag, now) ==
   LET i == FindSlot(bal, bn) IN
   IF i # 0 THEN <<bal, i>>
+  ELSE IF IsIntegrationTag(tag) /\ Cardinality({k \in DOMAIN bal : IsActive(bal[k]) /\ IsIntegrationTag(bal[k].tag)}) >= 8
+       THEN E("IntegrationPositionLimitExceeded")
   ELSE LET j == FirstEmpty(bal) IN
        IF j = 0 THEN E("LendingAccountBalanceSlotsFull") ELSE <<[bal EXCEPT ![j] = NewSlot(bn, key, tag, now)], j>>
 \* sort_balances: descending by key, inactive (default key) last; stable
